@@ -264,3 +264,231 @@ Proof.
   - destruct (chain_from_bounds _ _ _ _ C H1). lia.
   - eapply IH; eassumption.
 Qed.
+
+
+(* ---- totality: the fuel add_measures gives fill always suffices *)
+Lemma fill_total : forall fuel ex bl last ts_end a pos cnt,
+  ex_ok ex a ts_end -> a <= pos -> pos <= ts_end -> (Z.to_nat (ts_end - pos) < fuel)%nat ->
+  fill fuel ex bl last ts_end pos cnt <> None.
+Proof.
+  induction fuel as [|f IH]; intros ex bl last ts_end a pos cnt Hex Ha Hp Hf; [lia|].
+  cbn [fill]. destruct (ts_end <=? pos) eqn:E; [discriminate|].
+  set (mend := Z.min ts_end (full_end bl last pos)).
+  pose proof (full_end_gt bl last pos) as Hfe.
+  assert (Hm : pos < mend <= ts_end) by (unfold mend; lia).
+  destruct (first_in ex pos mend) as [[s e]|] eqn:EF.
+  - apply first_in_some in EF as [Hin Hs]. simpl in Hs.
+    destruct (Hex _ Hin) as [Hpos Hstr]. simpl in Hpos, Hstr. specialize (Hstr ltac:(lia)).
+    destruct (s =? pos) eqn:Es.
+    + pose proof (IH ex bl last ts_end a e (cnt + 1) Hex ltac:(lia) Hstr ltac:(lia)) as N.
+      destruct (fill f ex bl last ts_end e (cnt + 1)); [discriminate|congruence].
+    + pose proof (IH ex bl last ts_end a e (cnt + 2) Hex ltac:(lia) Hstr ltac:(lia)) as N.
+      destruct (fill f ex bl last ts_end e (cnt + 2)); [discriminate|congruence].
+  - pose proof (IH ex bl last ts_end a mend (cnt + 1) Hex ltac:(lia) ltac:(lia) ltac:(lia)) as N.
+    destruct (fill f ex bl last ts_end mend (cnt + 1)); [discriminate|congruence].
+Qed.
+
+Lemma fill_all_total : forall ss ex last cnt A B,
+  ex_ok_all ex ss -> chain_from A (map st_span ss) B -> fill_all ex last ss cnt <> None.
+Proof.
+  induction ss as [|[[a b] bl] ss IH]; intros ex last cnt A B Hex C; [discriminate|].
+  cbn [fill_all]. simpl in C. destruct C as (Ea & Lab & C).
+  assert (Hex1 : ex_ok ex a b) by (apply (Hex (a, b, bl)); left; reflexivity).
+  pose proof (fill_total (S (Z.to_nat (b - a))) ex bl last b a a cnt Hex1 (Z.le_refl a) ltac:(lia) ltac:(lia)) as N.
+  destruct (fill (S (Z.to_nat (b - a))) ex bl last b a cnt) as [[ms1 c1]|]; [|congruence]. simpl.
+  assert (Hex2 : ex_ok_all ex ss) by (intros s Hs; apply Hex; right; assumption).
+  pose proof (IH ex last c1 b B Hex2 C) as N2.
+  destruct (fill_all ex last ss c1); [discriminate|congruence].
+Qed.
+
+Lemma add_measures_total_lemma div tsigs first last ex :
+  pre tsigs first last ex div -> exists ms, add_measures div tsigs first last ex = Some ms.
+Proof.
+  intros [T X]. pose proof T as (N & L & _).
+  rewrite add_measures_unfold by assumption.
+  destruct (stretches_chain div tsigs first last T) as [C _].
+  pose proof (fill_all_total _ ex last 1 _ _ X C) as H.
+  destruct (fill_all ex last (stretches div tsigs first last) 1) as [ms|]; [eauto|congruence].
+Qed.
+
+(* ---- a new measure contains the start of no existing measure *)
+Lemma find_first_sorted {A} (R : A -> A -> Prop) (p : A -> bool) : forall l y x,
+  StronglySorted R l -> find p l = Some y -> In x l -> p x = true -> x = y \/ R y x.
+Proof.
+  induction l as [|z l IH]; intros y x S F Hin Hp; [contradiction|].
+  inversion S as [|? ? S' Fz]; subst. simpl in F.
+  destruct (p z) eqn:Pz.
+  - injection F as <-. destruct Hin as [->|Hin]; [left; reflexivity|].
+    right. rewrite Forall_forall in Fz. apply Fz; assumption.
+  - destruct Hin as [->|Hin]; [congruence|]. eapply IH; eassumption.
+Qed.
+
+Lemma first_in_none ex lo hi x : first_in ex lo hi = None -> In x ex -> ~ (lo <= fst x < hi).
+Proof.
+  unfold first_in. intros F Hin H.
+  pose proof (find_none _ _ F x Hin) as N. simpl in N. lia.
+Qed.
+
+Definition starts_free (ex : list (Z * Z)) (m : meas) : Prop :=
+  m_old m = false -> forall x, In x ex -> ~ (m_start m <= fst x < m_end m).
+
+Lemma fill_new_free : forall fuel ex bl last ts_end a pos cnt ms cnt',
+  ex_sorted ex -> ex_ok ex a ts_end -> a <= pos -> pos <= ts_end ->
+  fill fuel ex bl last ts_end pos cnt = Some (ms, cnt') ->
+  forall m, In m ms -> starts_free ex m.
+Proof.
+  induction fuel as [|f IH]; intros ex bl last ts_end a pos cnt ms cnt' Hso Hex Ha Hp H; [discriminate|].
+  cbn [fill] in H.
+  destruct (ts_end <=? pos) eqn:E.
+  - injection H as <- <-. intros m [].
+  - set (mend := Z.min ts_end (full_end bl last pos)) in *.
+    pose proof (full_end_gt bl last pos) as Hfe.
+    assert (Hm : pos < mend <= ts_end) by (unfold mend; lia).
+    destruct (first_in ex pos mend) as [[s e]|] eqn:EF.
+    + pose proof EF as EF0. apply first_in_some in EF as [Hin Hs]. simpl in Hs.
+      destruct (Hex _ Hin) as [Hpos Hstr]. simpl in Hpos, Hstr. specialize (Hstr ltac:(lia)).
+      destruct (s =? pos) eqn:Es.
+      * destruct (fill f ex bl last ts_end e (cnt + 1)) as [[ms1 c1]|] eqn:EFill; simpl in H; [|discriminate].
+        injection H as <- <-.
+        assert (Hae : a <= e) by lia.
+        pose proof (IH _ _ _ _ a _ _ _ _ Hso Hex Hae Hstr EFill) as F.
+        intros m [<-|Hm']; [intros Ho; discriminate | apply F; assumption].
+      * destruct (fill f ex bl last ts_end e (cnt + 2)) as [[ms1 c1]|] eqn:EFill; simpl in H; [|discriminate].
+        injection H as <- <-.
+        assert (Hae : a <= e) by lia.
+        pose proof (IH _ _ _ _ a _ _ _ _ Hso Hex Hae Hstr EFill) as F.
+        intros m [<-|[<-|Hm']]; [| intros Ho; discriminate | apply F; assumption].
+        intros _ x Hx Hr. simpl in Hr.
+        unfold first_in in EF0.
+        destruct (find_first_sorted _ _ ex (s, e) x Hso EF0 Hx ltac:(simpl; lia)) as [->|R]; simpl in *; lia.
+    + destruct (fill f ex bl last ts_end mend (cnt + 1)) as [[ms1 c1]|] eqn:EFill; simpl in H; [|discriminate].
+      injection H as <- <-.
+      assert (Hae : a <= mend) by lia. assert (Hme : mend <= ts_end) by lia.
+      pose proof (IH _ _ _ _ a _ _ _ _ Hso Hex Hae Hme EFill) as F.
+      intros m [<-|Hm']; [| apply F; assumption].
+      intros _ x Hx Hr. simpl in Hr. exact (first_in_none ex pos mend x EF Hx Hr).
+Qed.
+
+Lemma fill_all_new_free : forall ss ex last cnt ms A B,
+  ex_sorted ex -> ex_ok_all ex ss -> chain_from A (map st_span ss) B ->
+  fill_all ex last ss cnt = Some ms -> forall m, In m ms -> starts_free ex m.
+Proof.
+  induction ss as [|[[a b] bl] ss IH]; intros ex last cnt ms A B Hso Hex C H.
+  - simpl in H. injection H as <-. intros m [].
+  - cbn [fill_all] in H.
+    destruct (fill (S (Z.to_nat (b - a))) ex bl last b a cnt) as [[ms1 c1]|] eqn:EF; simpl in H; [|discriminate].
+    destruct (fill_all ex last ss c1) as [ms2|] eqn:EA; simpl in H; [|discriminate].
+    injection H as <-.
+    simpl in C. destruct C as (Ea & Lab & C). subst A.
+    assert (Hex1 : ex_ok ex a b) by (apply (Hex (a, b, bl)); left; reflexivity).
+    assert (Hex2 : ex_ok_all ex ss) by (intros s Hs; apply Hex; right; assumption).
+    intros m Hm. apply in_app_or in Hm as [Hm|Hm].
+    + exact (fill_new_free _ _ _ _ _ a _ _ _ _ Hso Hex1 (Z.le_refl a) ltac:(lia) EF m Hm).
+    + exact (IH ex last c1 ms2 b B Hso Hex2 C EA m Hm).
+Qed.
+
+(* sorted, positive-length existing measures do not overlap *)
+Lemma ex_sorted_disjoint : forall ex, ex_sorted ex -> (forall m, In m ex -> fst m < snd m) ->
+  forall x y, In x ex -> In y ex -> fst x <= fst y < snd x -> x = y.
+Proof.
+  induction ex as [|z ex IH]; intros S P x y Hx Hy H; [contradiction|].
+  inversion S as [|? ? S' F]; subst. rewrite Forall_forall in F.
+  assert (P' : forall m, In m ex -> fst m < snd m) by (intros m Hm; apply P; right; assumption).
+  destruct Hx as [->|Hx], Hy as [->|Hy].
+  - reflexivity.
+  - specialize (F y Hy). lia.
+  - specialize (F x Hx). pose proof (P y (or_introl eq_refl)). pose proof (P' x Hx). lia.
+  - eapply IH; eassumption.
+Qed.
+
+(* existing measures are kept: every existing measure that starts inside [first, last) is one of
+   the measures afterwards, with the same extent *)
+Lemma existing_kept_lemma div tsigs first last ex ms :
+  pre tsigs first last ex div -> ex_sorted ex ->
+  add_measures div tsigs first last ex = Some ms ->
+  forall x, In x ex -> first <= fst x < last ->
+  exists m, In m ms /\ m_old m = true /\ span m = x.
+Proof.
+  intros P Hso H x Hx Hr.
+  pose proof (measures_tile_lemma _ _ _ _ _ _ P H) as C.
+  pose proof (measures_old_lemma _ _ _ _ _ _ P H) as O.
+  destruct P as [T X]. pose proof T as (N & L & _).
+  rewrite add_measures_unfold in H by assumption.
+  destruct (stretches_chain div tsigs first last T) as [CS _].
+  pose proof (fill_all_new_free _ _ _ _ _ _ _ Hso X CS H) as NF.
+  destruct (chain_from_locate _ _ _ (fst x) C Hr) as (sp & Hsp & Hin & _).
+  unfold spans in Hsp. apply in_map_iff in Hsp as (m & <- & Hm).
+  exists m. split; [exact Hm|].
+  destruct (m_old m) eqn:Eo.
+  - split; [reflexivity|].
+    assert (Pos : forall z, In z ex -> fst z < snd z).
+    { intros z Hz.
+      (* positive length: from ex_ok of any stretch *)
+      destruct (stretches div tsigs first last) as [|s0 ss] eqn:Es.
+      - simpl in CS. lia.
+      - apply (X s0 (or_introl eq_refl) z Hz). }
+    apply (ex_sorted_disjoint ex Hso Pos (span m) x (O m Hm Eo) Hx). unfold span in *. simpl in *. exact Hin.
+  - exfalso. apply (NF m Hm Eo x Hx). unfold span in Hin; simpl in Hin. exact Hin.
+Qed.
+
+(* ---- the stretches and the signatures *)
+Lemma zip_in_force div last : forall rows,
+  StronglySorted Z.lt (map row_t rows) -> Forall (fun r => row_t r < last) rows ->
+  forall s, In s (zip_stretches div rows (map row_t (tl rows) ++ [last])) ->
+    stretch_in_force div rows s /\ snd (st_span s) <= last.
+Proof.
+  induction rows as [|[[t b] bt] r IH]; intros S F s Hs; [contradiction|].
+  inversion S as [|? ? S' Fx]; subst. inversion F as [|? ? Hx F']; subst.
+  rewrite Forall_forall in Fx.
+  destruct r as [|[[t' b'] bt'] r'].
+  - simpl in Hs. destruct Hs as [<-|[]]. unfold row_t in *; simpl in *. split; [|lia].
+    exists b, bt. split; [left; reflexivity|]. split; [reflexivity|].
+    intros r0 [<-|[]]. unfold row_t; simpl. lia.
+  - simpl in Hs. destruct Hs as [<-|Hs].
+    + split; [|inversion F'; subst; unfold row_t in *; simpl in *; lia].
+      exists b, bt. split; [left; reflexivity|]. split; [reflexivity|].
+      unfold st_span; simpl. intros r0 [<-|Hr0]; [unfold row_t; simpl; lia|].
+      inversion S' as [|? ? S'' Fy]; subst. rewrite Forall_forall in Fy.
+      destruct Hr0 as [<-|Hr0]; [unfold row_t; simpl; lia|].
+      specialize (Fy (row_t r0) (in_map row_t _ _ Hr0)). unfold row_t in *; simpl in *. lia.
+    + destruct (IH S' F' s Hs) as [(b0 & bt0 & I1 & I2 & I3) I4]. split; [|exact I4].
+      exists b0, bt0. split; [right; exact I1|]. split; [exact I2|].
+      intros r0 [<-|Hr0]; [|apply I3; exact Hr0].
+      specialize (Fx (row_t (fst (st_span s), b0, bt0)) (in_map row_t _ _ I1)).
+      unfold row_t in *; simpl in *. lia.
+Qed.
+
+Lemma stretches_in_force_lemma div tsigs first last :
+  ts_ok tsigs first last ->
+  forall s, In s (stretches div tsigs first last) -> stretch_in_force div (ts_rows tsigs first) s.
+Proof.
+  intros (N & Hfl & S & F) s Hs.
+  assert (Hrows : StronglySorted Z.lt (map row_t (ts_rows tsigs first)) /\ Forall (fun r => row_t r <= last) (ts_rows tsigs first)).
+  { unfold ts_rows. destruct tsigs as [|[[t b] bt] r]; [congruence|].
+    inversion F as [|? ? Ht F']; subst. unfold row_t in Ht; simpl in Ht.
+    destruct (first <? t) eqn:E.
+    - split.
+      + simpl. constructor; [exact S|]. simpl in S. inversion S as [|? ? S' Fx]; subst.
+        constructor; [unfold row_t; simpl; lia|].
+        apply Forall_forall. intros y Hy. rewrite Forall_forall in Fx. specialize (Fx y Hy). unfold row_t in *; simpl in *. lia.
+      + constructor; [unfold row_t; simpl; lia|]. constructor; [unfold row_t; simpl; lia|].
+        apply Forall_forall. intros y Hy. rewrite Forall_forall in F'. specialize (F' y Hy). lia.
+    - split; [exact S|]. apply Forall_forall. intros y Hy. rewrite Forall_forall in F. specialize (F y Hy). lia. }
+  destruct Hrows as [S0 F0].
+  unfold stretches in Hs. set (rows0 := ts_rows tsigs first) in *.
+  rewrite (drop_last_filter rows0 last S0 F0) in Hs.
+  set (rows := filter (fun r => row_t r <? last) rows0) in *.
+  assert (Fr : Forall (fun r => row_t r < last) rows).
+  { apply Forall_forall. intros r Hr. apply filter_In in Hr as [_ Hr]. lia. }
+  assert (Sr : StronglySorted Z.lt (map row_t rows)) by (apply map_filter_sorted; assumption).
+  assert (Fe : Forall (fun x => x < last) (map row_t (tl rows))).
+  { apply Forall_forall. intros x Hx. apply in_map_iff in Hx as (r & <- & Hr').
+    rewrite Forall_forall in Fr. apply Fr. destruct rows; [contradiction|]. right. assumption. }
+  rewrite (last_lt_all _ _ Fe) in Hs.
+  destruct (zip_in_force div last rows Sr Fr s Hs) as [(b & bt & I1 & I2 & I3) I4].
+  exists b, bt. split; [apply filter_In in I1 as [I1 _]; exact I1|]. split; [exact I2|].
+  intros r Hr Hin.
+  destruct (row_t r <? last) eqn:E.
+  - apply (I3 r); [apply filter_In; split; assumption | exact Hin].
+  - lia.
+Qed.
